@@ -72,13 +72,7 @@ def run(ck: Checker):
     ok = isinstance(re_, ast.Constant) and re_.value is True
     ck.ob('C04-1', f, pm[0], ok, 'the threaded branch runs Parmapper with return_exceptions=True: a failing call yields its exception in place' if ok else 'the threaded branch of Worker.stream does not pass return_exceptions=True: one failing call aborts the stream and with it the worker')
     # ------------------------------------------------------------------ C04-2 / C04-3
-    check_wrapping(ck, 'C04-2', mod.func('Worker._start_single'), out_q={'q_out'})
-    check_wrapping(ck, 'C04-2', mod.func('Worker._start_single.get_input'), out_q={'q_out'})
-    check_wrapping(ck, 'C04-2', mod.func('Worker._start_batch'), out_q={'q_out'})
-    check_wrapping(ck, 'C04-2', mod.func('Worker._build_input_batches'), out_q={'q_out'})
-    check_wrapping(ck, 'C04-2', smod.func('EnsembleServlet._enqueue'), out_q={'self._qout'})
-    check_wrapping(ck, 'C04-2', smod.func('EnsembleServlet._dequeue'), out_q={'self._qout'})
-    check_wrapping(ck, 'C04-2', smod.func('SwitchServlet._enqueue'), out_q={'self._qout'})
+    check_all_wrapping(ck, 'C04-2')
     # ensemble: a member output that is an exception is wrapped before it is stored in the result slot
     f = smod.func('EnsembleServlet._dequeue')
     cfg, sc, g = guard_cfg(ck, f, calls=())
@@ -317,3 +311,16 @@ def check_routing_sinks(ck: Checker, rid: str):
                     clean_value(ck, rid, f, cfg, g, n, c.args[0].id, 'value handed to the user\'s switch()')
                     n3 += 1
         ck.need(n3 >= 1, f'{f.key}: no member put found')
+
+
+def check_all_wrapping(ck: Checker, rid: str):
+    """every place of the worker / servlet code that puts a request's value on an output queue"""
+    mod = ck.repo.module(WORKER)
+    smod = ck.repo.module(SERVLET)
+    check_wrapping(ck, rid, mod.func('Worker._start_single'), out_q={'q_out'})
+    check_wrapping(ck, rid, mod.func('Worker._start_single.get_input'), out_q={'q_out'})
+    check_wrapping(ck, rid, mod.func('Worker._start_batch'), out_q={'q_out'})
+    check_wrapping(ck, rid, mod.func('Worker._build_input_batches'), out_q={'q_out'})
+    check_wrapping(ck, rid, smod.func('EnsembleServlet._enqueue'), out_q={'self._qout'})
+    check_wrapping(ck, rid, smod.func('EnsembleServlet._dequeue'), out_q={'self._qout'})
+    check_wrapping(ck, rid, smod.func('SwitchServlet._enqueue'), out_q={'self._qout'})
